@@ -1667,15 +1667,17 @@ def fixed_cases():
         if isinstance(value, list):
             return [to_json(v) for v in value]
         return value
-    return [{'kind': 'key', 'model': to_json(model), 'construct': False}, {'kind': 'tables'}]
+    return [{'kind': 'key', 'model': to_json(model), 'construct': False}]
 
 
 def run(ctx):
     ref.selftest()
     stats = Stats()
     for case in fixed_cases():
-        for finding in (check_case(case) if case['kind'] == 'tables' else case_fn(case, stats)):
+        for finding in case_fn(case, stats):
             stats.finding(finding, case)
+    for finding in check_case({'kind': 'tables'}):
+        stats.finding(finding, {'kind': 'tables'})
     stats.label('fixed:openssh-certificate')
     model_shards = 32 if ctx.quick else 96
     per_shard = 950 if ctx.quick else 4700
